@@ -14,6 +14,7 @@ type c05Case struct {
 	HdrCap int
 	ValCap int
 	Offs   int
+	Cut    int // > 0: deliver the message in two chunks cut at this length (relative to the text start)
 }
 
 func within(f sipsp.PField, s, e int) bool {
@@ -36,7 +37,15 @@ func evalC05(cs *c05Case) (vs []*Violation, ok bool) {
 	}
 	m := new(sipsp.PSIPMsg)
 	m.Init(nil, mkHdrs(cs.HdrCap), mkVals(cs.ValCap))
-	n, e := sipsp.ParseSIPMsg(buf, cs.Offs, m, cs.Flags)
+	po := cs.Offs
+	if cs.Cut > 0 && cs.Cut < len(cs.Msg) {
+		n1, e1 := sipsp.ParseSIPMsg(buf[:cs.Offs+cs.Cut], cs.Offs, m, cs.Flags)
+		if e1 != sipsp.ErrHdrMoreBytes {
+			return // the prefix already has a definitive verdict (a message of its own): not this case
+		}
+		po = n1
+	}
+	n, e := sipsp.ParseSIPMsg(buf, po, m, cs.Flags)
 	if e != 0 {
 		return
 	}
@@ -203,9 +212,11 @@ func evalC05(cs *c05Case) (vs []*Violation, ok bool) {
 	// multi-value headers: value i lies inside the line of a header of that type, in order
 	multi := func(what string, t sipsp.HdrT, cnt int, get func(i int) *sipsp.PFromBody) {
 		var tl []ext
+		var tidx []int
 		for i := range ref {
 			if refHdrType(buf[hs+ref[i][0]:hs+ref[i][1]]) == t {
 				tl = append(tl, lines[i])
+				tidx = append(tidx, i)
 			}
 		}
 		li := 0
@@ -219,6 +230,9 @@ func evalC05(cs *c05Case) (vs []*Violation, ok bool) {
 			if li >= len(tl) {
 				add("value-inside-its-header", what+"-value-line", fmt.Sprintf("value %d V %v is in no %s header line (in order)", i, f.V, what))
 				break
+			}
+			if hi := tidx[li]; hi < stored && !inside(f.V, m.HL.Hdrs[hi].Val) {
+				add("value-inside-its-header", what+"-value-in-header-value", fmt.Sprintf("value %d V %v outside the value %v of its header (line %d)", i, f.V, m.HL.Hdrs[hi].Val, hi))
 			}
 			if int(f.V.Offs) < last {
 				add("values-in-order", what, fmt.Sprintf("value %d V %v before %d", i, f.V, last))
@@ -247,7 +261,7 @@ func evalC05(cs *c05Case) (vs []*Violation, ok bool) {
 
 func checkC05(r *Run) {
 	r.Assume = []string{"line extents come from the independent reference tokenizer (mc/c07.go refTokenize); Name and Params are not required to be trimmed (documented)",
-		"one-shot parses; every chunk schedule gives the same values by C01"}
+		"one-shot parses plus two-chunk deliveries (every cut for the repeated-header product and the long messages, every 9th cut for menu messages); all other schedules give the same values by C01"}
 	msgDrv.init()
 	fl, hm := flineMenu, hdrLineMenuFull
 	K := 2
@@ -295,6 +309,13 @@ func checkC05(r *Run) {
 	for _, m := range longMsgs {
 		msgs = append(msgs, m)
 	}
+	nMenu := 0
+	for i, m := range msgs {
+		if strings.HasPrefix(m, "INVITE sip:a SIP/2.0\r\n") && strings.Contains(m, "CSeq: 1 INVITE\r\nl: 0") {
+			nMenu = i
+			break
+		}
+	}
 	cfgs := []c05Case{{HdrCap: -1, ValCap: -1}, {Flags: 1, HdrCap: -1, ValCap: -1}, {HdrCap: 3, ValCap: 2, Offs: 3}, {Flags: 2, HdrCap: 1, ValCap: 0}, {HdrCap: 20, ValCap: 8}}
 	parallelFor(r, len(msgs), func(c *enumCtx, i int) {
 		for _, cf := range cfgs {
@@ -306,6 +327,25 @@ func checkC05(r *Run) {
 			if ok {
 				c.st.States++
 				c.st.Nontrivial++
+			}
+			for _, v := range vs {
+				r.Col.add(v)
+			}
+		}
+		// chunked delivery (values must be the same "one-shot or under any chunk schedule"): every single cut for the
+		// repeated-header product and the long messages, a rotating selection of cuts for the menu messages
+		step := 1
+		if i < nMenu {
+			step = 9
+		}
+		for cut := 1 + i%step; cut < len(msgs[i]); cut += step {
+			cs := cfgs[(i+cut)%len(cfgs)]
+			cs.Msg, cs.Cut = msgs[i], cut
+			vs, ok := evalC05(&cs)
+			c.st.Evals++
+			c.st.Transitions += 2
+			if ok {
+				c.st.addExtra("chunked_successful_parses_checked", 1)
 			}
 			for _, v := range vs {
 				r.Col.add(v)
